@@ -224,7 +224,7 @@ class Attempt:
 
     def __init__(self, n, host, port, t):
         self.n, self.host, self.port, self.t_start = n, host, port, t
-        self.outcome = None      # 'ok' | 'refused' | 'hang' | 'badport'
+        self.outcome = None      # 'ok' | 'refused' | 'hang' | 'badport' (port 0 / None: OSError) | 'overflow' (port > 65535: OverflowError)
         self.reader = self.writer = None
         self.t_end = None
 
@@ -242,13 +242,19 @@ class Wire:
         a = Attempt(len(self.attempts), host, port, self.loop.time())
         self.attempts.append(a)
         p = port.v if isinstance(port, Box) else port
-        if p is None:
-            usable = False          # (host, None): nothing to connect to
-        else:
-            usable = (p >= 1) & (p <= 65535) if isinstance(p, (SWord, SInt)) else (1 <= p <= 65535)
-        if not bool(usable):
+        # (1) what the real asyncio.open_connection does with its ARGUMENTS before any attempt is made: a port outside
+        # 0..65535 -> OverflowError (NOT an OSError); model of C10, validated against the real asyncio in C10's prelude.
+        # The port is the value that actually reached this call (symbolic 32-bit word from the wire: forks here)
+        try:
+            from engine import c10env
+            c10env.check_address(host, port)
+        except (OverflowError, ValueError):
+            a.outcome, a.t_end = 'overflow', self.loop.time()
+            raise
+        # (2) port 0 / no port: the attempt itself fails at once with an OSError (nothing listens on port 0)
+        if p is None or not bool(p >= 1):
             a.outcome, a.t_end = 'badport', self.loop.time()
-            raise OSError('port unusable (0 or beyond 65535)')
+            raise OSError('cannot connect to port 0')
         res = self.script(a) if self.script is not None else ('ok', 0)
         outcome, delay, hops = res[0], res[1], (res[2] if len(res) > 2 else 0)
         a.outcome = outcome
@@ -564,7 +570,9 @@ class World:
 STUBS = [
     'asyncio.open_connection / asyncio.start_server (attributes of the asyncio module the aioslsk connection module calls) -> '
     'engine.c11env.Wire: every outgoing attempt ends as scripted by the scenario (connected after a delay / refused after a delay / '
-    'never answers); a port outside 1..65535 fails at once (symbolic ports fork there); streams are engine.c02env.FakeReader '
+    'never answers); before that the arguments are checked like the real asyncio does (engine.c10env.check_address: a port beyond '
+    '65535 raises OverflowError, which is not an OSError; validated against the real asyncio.open_connection in the prelude), port 0 / '
+    'None fails at once with an OSError (symbolic ports fork at both tests); streams are engine.c02env.FakeReader '
     '(byte-accurate, symbolic bytes) and engine.c11env.Writer (records frames; drain() ok / raises ConnectionResetError / hangs as '
     'scripted; close() delivers EOF to the paired reader via call_soon like a transport)',
     'Network._expected_connection_futures and Network._ip_overrides -> engine.c11env.SymMap while exploring (same mapping '
